@@ -7,6 +7,8 @@ import Driver.Util
    inf <bits>      → `<class> res=<FLOAT2RES bits> sig=<FLOAT2SIG bits>`
    out <bits>      → `<class> i16=<RES2INT16> i24=<RES2INT24> f=<RES2FLOAT bits>`
    f2i16 <hex>     celt_float2int16 on an array of little-endian floats → int16 values `a,b,c`
+   enc16|enc24|encf <st.lsb_depth> <channels> <frame_size_select result> <samples LE>   the argument tuple handed to opus_encode_native
+   dec16|dec24|decf <frame_size> <nb_samples> <packet given 0/1> <floats the core writes>  soft_clip flag, frame size handed down, converted output
    proj <m0,m1,…> <hex>   one output sample of mapping_matrix_multiply_channel_out_short: Q15 cells, stream floats → `<plain|saturated> i16=<v>` -/
 namespace Driver.SuitePcm
 open Opus Opus.Pcm Driver
@@ -25,7 +27,68 @@ def bytesToBits : Bytes → Option (List Nat)
   | a :: b :: c :: d :: rest => (bytesToBits rest).map ((a + 256 * b + 65536 * c + 16777216 * d) :: ·)
   | _ => none
 
+def bytesToS16 : Bytes → Option (List Int)
+  | [] => some []
+  | a :: b :: rest =>
+    let u := a + 256 * b
+    (bytesToS16 rest).map ((if u ≥ 32768 then (u : Int) - 65536 else (u : Int)) :: ·)
+  | _ => none
+
+def bytesToS32 : Bytes → Option (List Int)
+  | [] => some []
+  | a :: b :: c :: d :: rest =>
+    let u := a + 256 * b + 65536 * c + 16777216 * d
+    (bytesToS32 rest).map ((if u ≥ 2147483648 then (u : Int) - 4294967296 else (u : Int)) :: ·)
+  | _ => none
+
+def bitsToBytes (xs : List Nat) : Bytes :=
+  xs.flatMap fun u => [u % 256, u / 256 % 256, u / 65536 % 256, u / 16777216 % 256]
+
+def showArgs (dm : String) : Option CoreArgs → String
+  | none => "BAD_ARG"
+  | some a => s!"ok fs={a.frameSize} as={a.analysisSize} depth={a.lsbDepth} c1={a.c1} c2={a.c2} ach={a.analysisChannels} fapi={a.floatApi} dm={dm} res={toHex (bitsToBytes a.res)} sig={toHex (bitsToBytes a.sig)}"
+
+/-- the entry point's argument tuple: `core` = identity on the tuple -/
+def encArgs (fmt : Nat) (stDepth channels : Nat) (fss : Int) (bs : Bytes) : Option String :=
+  if channels = 0 then none else
+  match fmt with
+  | 16 => (bytesToS16 bs).map fun pcm =>
+      showArgs "int" (entryArgs (fun fs => encode16 (fun (_ : Unit) a => a) () stDepth channels fs pcm) fss)
+  | 24 => (bytesToS32 bs).map fun pcm =>
+      showArgs "int24" (entryArgs (fun fs => encode24 (fun (_ : Unit) a => a) () stDepth channels fs pcm) fss)
+  | _ => (bytesToBits bs).map fun pcm =>
+      showArgs "float" (entryArgs (fun fs => encodeFloat (fun (_ : Unit) a => a) () stDepth channels fs pcm) fss)
+
+def decOut (fmt : Nat) (fs nb : Int) (uses : Nat) (bs : Bytes) : Option String :=
+  (bytesToBits bs).map fun out =>
+    let (clip, fsDown, o) := decodeEntry fmt fs nb (uses == 1) out
+    s!"clip={clip} fs={fsDown} out={intList o}"
+
 def handle : List String → String
+  | ["enc16", d, c, fss, hex] =>
+    match parseNat d, parseNat c, parseInt fss, parseHex hex with
+    | some d, some c, some fss, some bs => (encArgs 16 d c fss bs).getD "bad-op"
+    | _, _, _, _ => "bad-op"
+  | ["enc24", d, c, fss, hex] =>
+    match parseNat d, parseNat c, parseInt fss, parseHex hex with
+    | some d, some c, some fss, some bs => (encArgs 24 d c fss bs).getD "bad-op"
+    | _, _, _, _ => "bad-op"
+  | ["encf", d, c, fss, hex] =>
+    match parseNat d, parseNat c, parseInt fss, parseHex hex with
+    | some d, some c, some fss, some bs => (encArgs 32 d c fss bs).getD "bad-op"
+    | _, _, _, _ => "bad-op"
+  | ["dec16", fs, nb, uses, hex] =>
+    match parseInt fs, parseInt nb, parseNat uses, parseHex hex with
+    | some fs, some nb, some uses, some bs => (decOut 16 fs nb uses bs).getD "bad-op"
+    | _, _, _, _ => "bad-op"
+  | ["dec24", fs, nb, uses, hex] =>
+    match parseInt fs, parseInt nb, parseNat uses, parseHex hex with
+    | some fs, some nb, some uses, some bs => (decOut 24 fs nb uses bs).getD "bad-op"
+    | _, _, _, _ => "bad-op"
+  | ["decf", fs, nb, uses, hex] =>
+    match parseInt fs, parseInt nb, parseNat uses, parseHex hex with
+    | some fs, some nb, some uses, some bs => (decOut 32 fs nb uses bs).getD "bad-op"
+    | _, _, _, _ => "bad-op"
   | ["in16", x] =>
     match parseInt x with
     | some x => s!"{signCls x} res={int16ToRes x} sig={int16ToSig x}"
